@@ -10,6 +10,7 @@ import (
 	"flag"
 	"fmt"
 	"os"
+	"os/exec"
 	"path/filepath"
 	"runtime"
 	"runtime/debug"
@@ -102,15 +103,17 @@ func cmdCheck(args []string) int {
 	start := time.Now()
 	shards := chk.Shards(*tier)
 	col := engine.NewCollector()
-	pool := engine.Pool{Workers: *workers, Seed: seed, Watchdog: 45 * time.Minute}
+	pool := engine.Pool{Workers: *workers, Seed: seed, Watchdog: 45 * time.Minute, Stall: 100 * time.Second}
 	if *budget > 0 {
 		pool.Deadline = start.Add(*budget)
 	}
 	res := pool.Run(shards, col)
 	if res.HangSuspect != "" {
-		// A shard did not finish within the watchdog: report it as a hang suspect. The wrapper script re-runs the shard alone to confirm.
-		fmt.Printf("HANG-SUSPECT property=%s shard=%s\n", id, res.HangSuspect)
-		return 3
+		slowest := 0.0
+		for _, x := range res.Slowest {
+			slowest = max(slowest, x.Seconds)
+		}
+		return hangSuspect(id, *tier, res.HangSuspect, res.HangNote, *replays, time.Duration(slowest*float64(time.Second)))
 	}
 
 	viols, counts := col.All()
@@ -378,4 +381,49 @@ func cmdWorkerReplay(args []string) int {
 	b, _ := json.Marshal(harness.WorkerResult{Violations: vs, Counts: counts})
 	os.Stdout.Write(b)
 	return 0
+}
+
+// hangSuspect handles a shard that stopped making progress: the stuck
+// goroutine cannot be recovered, so the shard is run again alone in a fresh
+// process under a generous limit. Only a hang that shows again is believed. It
+// is a VIOLATION for the properties that promise termination/progress (C03,
+// C06, C09, C16); for every other check it ends the run with exit 3.
+func hangSuspect(id, tier, shard, note, replays string, slowestShard time.Duration) int {
+	fmt.Printf("HANG-SUSPECT property=%s shard=%s working on: %s\n", id, shard, note)
+	// the slowest shard that did finish took slowestShard under full load; alone the suspect gets four times that plus 90 s
+	limit := min(4*slowestShard+90*time.Second, 15*time.Minute)
+	confirmed := false
+	if exe, err := os.Executable(); err == nil {
+		cmd := exec.Command(exe, "worker", id, shard, "--tier", tier)
+		cmd.Env = append(os.Environ(), "LZMC_NO_NESTED=1")
+		done := make(chan error, 1)
+		if err := cmd.Start(); err == nil {
+			go func() { done <- cmd.Wait() }()
+			select {
+			case <-done:
+				fmt.Printf("the shard finished when it was run alone: not a reproducible hang\n")
+			case <-time.After(limit):
+				cmd.Process.Kill()
+				confirmed = true
+			}
+		}
+	}
+	if !confirmed {
+		fmt.Fprintf(os.Stderr, "lzmc: internal error: shard %s stalled but the stall did not reproduce\n", shard)
+		return 2
+	}
+	path := ""
+	if replays != "" {
+		os.MkdirAll(replays, 0o755)
+		path = filepath.Join(replays, id+"-hang.json")
+		engine.WriteJSON(path, map[string]any{"property": id, "sig": id + "|hang|" + shard, "msg": "the shard does not terminate", "hang_shard": shard, "tier": tier, "working_on": note,
+			"howto": fmt.Sprintf("lzmc worker %s %q --tier %s   (does not return)", id, shard, tier)})
+	}
+	switch id {
+	case "C03", "C06", "C09", "C16":
+		fmt.Printf("VIOLATION property=%s replay=%s\n  signature: %s|hang\n  shard %s does not terminate (run twice, the second time alone with a limit of %v); it was working on: %s\n", id, path, id, shard, limit.Round(time.Second), note)
+		return 1
+	}
+	fmt.Printf("shard %s does not terminate (confirmed); non-termination is the business of C03/C06/C09/C16, this check cannot decide its property: %s\n", shard, path)
+	return 3
 }
